@@ -17,6 +17,7 @@ func init() {
 		Title: "revocation checking fails closed over the whole certificate chain",
 		Run:   runC05,
 		Explain: "(a) the verifier constructor's success exits store a non-nil code-signing validator or client, and the revocation function fails when both are nil; " +
+			"the option fields the two verifier fields are fed from are found by a backward slice from the stores, every function that was handed the caller's options struct and passes options on towards the verifier passes its own parameter's value of those fields (followed through local copies, literals, field stores, helpers), and a default is stored only where the caller's validator and client were both tested nil; " +
 			"(b) both validator interfaces receive the unsliced SignerInfo.CertificateChain and the same signing-time value, which is the zero time unless scheme == notary.x509.signingAuthority; " +
 			"(c) a validator error and every aggregate other than ResultOK set the result's Error; " +
 			"(d) the aggregator (found by its []*result.CertRevocationResult parameter) is decided by abstract interpretation over the finite domain Result in {OK, NonRevokable, Unknown, Revoked, other} per certificate, " +
@@ -444,6 +445,7 @@ func runC05(c *Ctx) {
 		c05Aggregator(c, A, rc)
 	}
 	c05Constructor(c, R, vcCall, vCall)
+	c05OptionsForwarded(c, R, vcCall, vCall)
 }
 
 func unwrapLoadAlloc(v ssa.Value) (*ssa.Alloc, bool) {
